@@ -24,6 +24,7 @@ import (
 	"fmt"
 	"math"
 	"os"
+	"runtime/debug"
 	"sort"
 	"strings"
 
@@ -189,6 +190,9 @@ func runDB(args []string, in *bufio.Scanner, out *bufio.Writer) {
 		res := func() (r string) {
 			defer func() {
 				if e := recover(); e != nil {
+					if os.Getenv("VERIF_STACK") != "" {
+						fmt.Fprintf(os.Stderr, "PANIC %v\n%s\n", e, debug.Stack())
+					}
 					msg := fmt.Sprint(e)
 					if len(msg) > 120 {
 						msg = msg[:120]
